@@ -5,6 +5,7 @@ import (
 	"fmt"
 	"io"
 	"reflect"
+	"strings"
 
 	hessian "github.com/vogo/gohessian"
 
@@ -36,6 +37,8 @@ func (c15) Cases(tier string, seed int64, kf *KnownFindings) []Case {
 	for i, e := range zoo.Types {
 		cs = append(cs, Case{Kind: "faults", Type: e.Name, Seed: Mix(seed, 300+i), Count: per, Sub: -1})
 	}
+	// payloads larger than any plausible internal piece size (64 KiB .. 300 KiB)
+	cs = append(cs, Case{Kind: "big", Seed: Mix(seed, 299), Count: 6, Sub: -1})
 	return cs
 }
 
@@ -87,7 +90,7 @@ func (c15) Run(c Case, env *Env) Result {
 	lo, hi := subRange(c)
 	kinds := []mon.FaultKind{mon.FaultOnce, mon.FaultFrom, mon.FaultShortErr, mon.FaultShortNil}
 	for j := lo; j < hi; j++ {
-		if typeAvoided(env, "C15", e) && !env.Replay {
+		if c.Kind != "big" && typeAvoided(env, "C15", e) && !env.Replay {
 			res.Skipped++
 			continue
 		}
@@ -95,7 +98,22 @@ func (c15) Run(c Case, env *Env) Result {
 		if e.Has("recursive") {
 			share = 0.3
 		}
-		val, feats := zooValue(e, Mix(c.Seed, j), cfg, share)
+		var val interface{}
+		var feats []string
+		if c.Kind == "big" {
+			n := 70000 + 40000*j
+			feats = []string{"big-payload"}
+			switch j % 3 {
+			case 0:
+				val = strings.Repeat("s", n)
+			case 1:
+				val = &zoo.Scalars{S: "x", Bin: bytes.Repeat([]byte{7}, n)}
+			default:
+				val = []interface{}{int32(1), strings.Repeat("é", n), bytes.Repeat([]byte{1}, n)}
+			}
+		} else {
+			val, feats = zooValue(e, Mix(c.Seed, j), cfg, share)
+		}
 		env.J(c.Idx, j)
 		cc := c
 		cc.Sub = j
